@@ -90,7 +90,7 @@ def run(ctx):
     _, more = bp.io_run(ctx, "c10_b", NS=4, NI=2, G=3, vals=(0, 1, 2), mode="hash", seeds=range(1, 9 if q else 40),
                         canon=False, emit=True)
     insts2 = list(more)
-    _, more = bp.io_run(ctx, "c10_c", simulate=1600 if q else 20000, NS=4, NI=3, G=3, vals=(0, 1, 2), min_kids=1,
+    _, more = bp.io_run(ctx, "c10_c", simulate=1200 if q else 20000, NS=4, NI=3, G=3, vals=(0, 1, 2), min_kids=1,
                         canon=False, emit=True)
     insts2 += more
     if not q:
@@ -123,7 +123,7 @@ def run(ctx):
     for inst in todo:
         replay_double(ctx, inst)
     bp.tick(ctx, "replay_doubles")
-    poisson_cases(ctx, 36 if q else 500)
+    poisson_cases(ctx, 28 if q else 500)
     bp.tick(ctx, "poisson_cases")
 
 
